@@ -66,8 +66,10 @@ pub mod syntax {
     pub uninterp spec fn char_step<'src>(w: Walker<'src>, c: char) -> Option<Walker<'src>>;
     /// the walker is at the end of its text
     pub uninterp spec fn over<'src>(w: Walker<'src>) -> bool;
-    /// the very next token (nothing skipped) is a blank
-    pub uninterp spec fn next_is_blank<'src>(w: Walker<'src>) -> bool;
+    /// the kind of the very next token (nothing skipped)
+    pub uninterp spec fn next_kind<'src>(w: Walker<'src>) -> TokenKind;
+    /// C07: what may stand where the pattern has a blank: a blank or a comment
+    pub open spec fn separates(k: TokenKind) -> bool { k is Whitespace || k is Comment }
     /// char::eq_ignore_ascii_case as a relation (ASSUMED specification)
     pub uninterp spec fn same_ignoring_ascii_case(a: char, b: char) -> bool;
     pub assume_specification[ char::eq_ignore_ascii_case ](a: &char, b: &char) -> (r: bool)
